@@ -70,10 +70,42 @@ func Table() map[string]*Property {
 		Trusted: []string{"sort.Slice: result is a rearrangement without inversions w.r.t. a strict weak order (the less function is proved to be one)", "gvc VC generator; SMT solvers"},
 		Note:    "sortPlugins leaves the plugins sorted by (prefix length desc, prefix desc); pkg.Add hands the call to the first plugin whose prefix matches, which under that order has the longest matching prefix; no plugin is consulted when none matches",
 	})
+	textKinds := map[string]bool{"G4": true, "typecheck": true, "header": true, "hole-integrity": true}
 	semantic := func(r driver.ObResult) bool {
-		// obligations about what the emitted text means (and that it can be given a meaning at all)
+		// obligations about what the emitted text means, including that it can be
+		// given a meaning at all (parses, type-checks): a path that does not
+		// type-check has no verification conditions
+		_ = textKinds
 		return r.Layer == "O"
 	}
+	oTrusted := []string{"go/parser, go/types on the schematic programs", "gvc Layer G symbolic evaluator and VC generator; z3 4.8.12, z3 5.1.0, cvc5 1.0"}
+	oAssume := []string{
+		"A-int; A-cfg (a hole replaced by a representative of its grammar class parses the same way); A-param (go/types is parametric in opaque named types)",
+		"slices and maps of emitted code are modelled as values: aliasing between distinct slice variables that share a backing array is not modelled",
+		"function-typed parameters (predicates, mapped functions) are deterministic, total and do not write the memory the helper works on",
+		"helper functions emitted by other plugins are used by their contracts (equal: EqTop; compare: a total preorder CmpTop with values in {-1,0,1}; contains/keys/set: their own o-ensures)",
+	}
+	add(&Property{
+		ID:     "C13",
+		Groups: []Group{{Layer: "O", Funcs: []string{"keys.gen.genFuncFor", "sort.gen.genFuncFor", "min.gen.genTwo", "min.gen.genSlice", "max.gen.genTwo", "max.gen.genSlice"}, Only: semantic}},
+		Assumptions: append([]string{
+			"sort.Strings/Ints/Float64s/Slice: the result is a rearrangement of the input without inversions (for sort.Slice: w.r.t. the less function, which is proved a strict weak order); 'permutation' is the uninterpreted predicate perm plus mutual element coverage",
+			"floats are NaN-free and totally ordered",
+		}, oAssume...),
+		Trusted: oTrusted,
+		Note:    "Keys: every key exactly once (visited-set invariant over an arbitrary iteration order); Sort: permutation, non-decreasing under CmpTop; Min/Max: an element of the list that nothing precedes/follows, the default when empty, two-value forms return one of the arguments",
+	})
+	add(&Property{
+		ID: "C14",
+		Groups: []Group{{Layer: "O", Funcs: []string{"contains.gen.genFuncFor", "unique.gen.genFuncFor", "set.gen.genFuncFor", "union.gen.genMap", "union.gen.genSlice",
+			"intersect.gen.genMap", "intersect.gen.genSlice", "filter.gen.genFuncFor", "takewhile.gen.genFuncFor", "all.gen.genFuncFor", "any.gen.genFuncFor"}, Only: semantic}},
+		Assumptions: append([]string{
+			"lemma L-count (induction, trusted): countIf is monotone and strictly increases across a counted position",
+			"Unique on elements that are not ==-comparable (hash-bucket path): only text-level obligations are generated; its functional contract (pairwise non-Equal, covering, first occurrences in order) needs a bucket-table invariant that is NOT mechanised - this path is not counted as proved",
+		}, oAssume...),
+		Trusted: oTrusted,
+		Note:    "Contains <=> some element Equal to the item; Set/Union/Intersect are the mathematical set operations (lists: first list's order, then new items); Filter keeps exactly the satisfying elements in order (countIf characterisation); TakeWhile the maximal satisfying prefix; All/Any the quantifiers; the predicate is called on elements in order and not after the stopping point (effect trace)",
+	})
 	add(&Property{
 		ID:     "C02",
 		Groups: []Group{{Layer: "O", Funcs: []string{"equal.gen.field", "equal.gen.genStatement", "equal.gen.genFunc", "equal.gen.genCurriedFunc"}, Only: semantic}},
